@@ -352,7 +352,7 @@ HISTORIES = [("R",), ("H", "R"), ("B", "R"), ("H", "B", "R"), ("B", "H", "R"), (
              ("B", "R", "R"), ("R", "H", "B", "R")]
 
 
-def real(chk: Check, per_template, shards, long_zero=4, many_blocks=4, zero_rounds=1, wire_rounds=3, quat_all=False):
+def real(chk: Check, per_template, shards, long_zero=4, many_blocks=4, zero_rounds=1, wire_rounds=3, quat_all=False, header_rounds=1):
     I = impl()
     rng = chk.rng
     pairs = c01.real_shapes(chk)
@@ -367,9 +367,12 @@ def real(chk: Check, per_template, shards, long_zero=4, many_blocks=4, zero_roun
     def note(k):
         stats[k] = stats.get(k, 0) + 1
 
-    def one(shape, tmpl, maxlen=12, force_style=None, counts=(0, 1, 1, 2), kinds=None, big_count=0, force=None, tag=None, wire=None):
-        hdr, bp, ty, _ = c01.gen_message(I, rng, shape, tmpl, counts=counts, maxlen=maxlen, force=force,
-                                         hdr=dict(c01.gen_header(rng, rich=False), flags=0, acks=[]))
+    def one(shape, tmpl, maxlen=12, force_style=None, counts=(0, 1, 1, 2), kinds=None, big_count=0, force=None, tag=None, wire=None,
+            extra=None, nacks=None):
+        hdr0 = dict(c01.gen_header(rng, rich=False), flags=0, acks=[])
+        if extra is not None:
+            hdr0["extra"] = extra
+        hdr, bp, ty, _ = c01.gen_message(I, rng, shape, tmpl, counts=counts, maxlen=maxlen, force=force, hdr=hdr0)
         kind = rng.choice(kinds or ["pristine", "wire-values", "wire-values", "truncate", "extend", "drop-blocks", "flip", "truncate-z"])
         if force_style:
             kind = "pristine"
@@ -426,9 +429,9 @@ def real(chk: Check, per_template, shards, long_zero=4, many_blocks=4, zero_roun
             if kind == "truncate-z" and len(body) > 6:
                 body = body[:rng.randrange(5, len(body))]
         tail = b""
-        if rng.random() < 0.35:
+        if nacks is not None or rng.random() < 0.35:
             flags |= 0x10
-            acks = [rng.choice([1, 0, 0xFFFFFFFF, rng.getrandbits(32)]) for _ in range(rng.choice([0, 1, 2, 5]))]
+            acks = [rng.choice([1, 0, 0xFFFFFFFF, rng.getrandbits(32)]) for _ in range(rng.choice([0, 1, 2, 5]) if nacks is None else nacks)]
             tail = b"".join(a.to_bytes(4, "big") for a in reversed(acks)) + bytes([len(acks)])
         data = bytes([flags]) + base[1:6] + body + tail
         mode = rng.choice(["eager", "deferred", "deferred"])
@@ -440,7 +443,7 @@ def real(chk: Check, per_template, shards, long_zero=4, many_blocks=4, zero_roun
         if evs is None:
             note("unknown-template-selected")
             return
-        if not ok and mode == "deferred":
+        if not ok and mode == "deferred" and extra is None:
             note("header-refused")       # outside the quantifier (datagrams accepted by the header parser)
             return
         traces.append(evs)
@@ -464,6 +467,16 @@ def real(chk: Check, per_template, shards, long_zero=4, many_blocks=4, zero_roun
             one(shape, tmpl, force_style=["wrap", "split", "canonical", "wrap"][k % 4])
         finally:
             c01.gen_bytes_field = saved
+    # header product: canonically zero-coded, ack trailer with 0..3 IDs, extra bytes of every class, small and large bodies
+    # (a refusal of such a datagram is not dropped as out of scope: TLC says whether it was parseable)
+    small = [p for p in pairs if sum(c01.inst_size(b) * (b["n"] or 1) for b in p[0]["blocks"]) <= 8
+             and all(b["kind"] != "Variable" and all(v["t"] != "Variable" for v in b["vars"]) for b in p[0]["blocks"])]
+    large = [p for p in pairs if 60 <= sum(c01.inst_size(b) * (b["n"] or 1) for b in p[0]["blocks"]) <= 300]
+    for _ in range(header_rounds):
+        for nack in (0, 1, 3):
+            for ex in c01.extra_classes(rng):
+                shape, tmpl = rng.choice(small if rng.random() < 0.6 else large)
+                one(shape, tmpl, maxlen=6, counts=(1,), force_style="canonical", tag="hdr-zc-acks%d-extra%d" % (nack, len(ex)), extra=ex, nacks=nack)
     # every rotation field of the real template with every out-of-the-ordinary wire quaternion
     quat_templates = [(s_, t_) for s_, t_ in pairs if any(v["t"] == "LLQuaternion" for b in s_["blocks"] for v in b["vars"])]
     for shape, tmpl in quat_templates:
@@ -525,5 +538,5 @@ def run(chk: Check):
         real(chk, 2, shards=6)
     else:
         mini(chk, "{0, 1, 255}", 6, "{0, 128, 16, 144}", 3, 2, shards=14, split=True)
-        real(chk, 30, shards=14, long_zero=24, many_blocks=40, zero_rounds=6, wire_rounds=30, quat_all=True)
+        real(chk, 30, shards=14, long_zero=24, many_blocks=40, zero_rounds=6, wire_rounds=30, quat_all=True, header_rounds=6)
     chk.cov["exhaustive"] = True
